@@ -645,7 +645,9 @@ theorem lookup_through_index_oui (hd : List Line) (recs : List (List Line)) (w :
   refine ⟨r, hr, ⟨k, hkey, hk⟩, ?_⟩
   rw [← hsl]; exact h3
 
-/-- how `load_index` reads the rows the IAB parser wrote: the key column must be an int -/
+/-- the integer-keyed rows of what the IAB parser wrote.  NOT `load_index`: the real `load_index` raises
+    ValueError on a bytes key instead of skipping the row — see `Registry.iabLoad` and
+    `lookup_through_index_iab_loaded` / `lookup_exact_iab` in Props/C19Exact.lean, which supersede this. -/
 def iabLoaded (rows : List (Row IabKey)) : List (Nat × Nat × Nat) :=
   rows.filterMap (fun r => match r.1 with
     | .num n => some (n.toNat, r.2.1, r.2.2)
